@@ -142,6 +142,8 @@ func (p *Parser) ParseGroupedExpression() (*ast.GroupedExpression, error) {
 	if !p.ExpectPeek(token.RIGHT_PAREN) {
 		return nil, errors.WithStack(UnexpectedToken(p.peekToken, "RIGHT_PAREN"))
 	}
+	// comments before the right parenthesis belong to the inner expression
+	SwapLeadingTrailing(p.curToken, right.GetMeta())
 	exp.EndLine = right.GetMeta().EndLine
 	exp.EndPosition = right.GetMeta().EndPosition + 1
 
@@ -167,6 +169,8 @@ func (p *Parser) ParseIfExpression() (*ast.IfExpression, error) {
 	if !p.ExpectPeek(token.COMMA) {
 		return nil, errors.WithStack(UnexpectedToken(p.peekToken, "COMMA"))
 	}
+	// comments before the comma belong to the preceding expression
+	SwapLeadingTrailing(p.curToken, exp.Condition.GetMeta())
 
 	p.NextToken() // point to consequence expression
 	exp.Consequence, err = p.ParseExpression(LOWEST)
@@ -177,6 +181,7 @@ func (p *Parser) ParseIfExpression() (*ast.IfExpression, error) {
 	if !p.ExpectPeek(token.COMMA) {
 		return nil, errors.WithStack(UnexpectedToken(p.peekToken, "COMMA"))
 	}
+	SwapLeadingTrailing(p.curToken, exp.Consequence.GetMeta())
 
 	p.NextToken() // point to alternative expression
 	exp.Alternative, err = p.ParseExpression(LOWEST)
@@ -187,6 +192,7 @@ func (p *Parser) ParseIfExpression() (*ast.IfExpression, error) {
 	if !p.ExpectPeek(token.RIGHT_PAREN) {
 		return nil, errors.WithStack(UnexpectedToken(p.peekToken, "RIGHT_PAREN"))
 	}
+	SwapLeadingTrailing(p.curToken, exp.Alternative.GetMeta())
 	exp.EndLine = p.curToken.Token.Line
 	exp.EndPosition = p.curToken.Token.Position
 
